@@ -436,6 +436,9 @@ async fn sub_loop(mut st: SubState, detached: bool) -> LoopEnd {
 			}
 			SubCmd::AcceptTimeout(ms) => {
 				if let Some(p) = pending.take() {
+					// (in a run with preemption points the pause inside `accept()` is a place where no real future can
+					// be dropped - it stands for a descheduled thread - so the time limit is far away there)
+					let ms = if rt::param("preempt").is_some() { 3_600_000 } else { ms };
 					match tokio::time::timeout(Duration::from_millis(ms), p.accept()).await {
 						Ok(Ok(s)) => {
 							*sink = Some(s);
